@@ -57,3 +57,42 @@ def add_reference_cases():
                     if state == "otherkey" and owner._refs.get("o") != [objs[0]]:
                         return "other key changed"
     return True
+
+
+def set_existing_field(cls, fieldname, vlevel, connected, set_reference, value_is_None, value_is_placeholder, value_is_valid, lookup):
+    """replay of a counter-model of FieldData._set_existing_field on a real Gfa; returns True if the contract held"""
+    from bounded import state
+    docs = {"segment.GFA1": (["S\tA\t*", "S\tB\t*"], "A", "B"), "edge.Link": (["S\tA\t*", "S\tB\t*", "L\tA\t+\tB\t+\t*\tID:Z:lk"], "lk", "B"),
+            "edge.GFA2": (["S\tA\t8\t*", "S\tB\t8\t*", "E\te1\tA+\tB+\t6\t8$\t0\t2\t*"], "e1", "B"),
+            "Gap": (["S\tA\t8\t*", "S\tB\t8\t*", "G\tg1\tA+\tB-\t1\t*"], "g1", "B"), "group.Unordered": (["S\tA\t8\t*", "S\tB\t8\t*", "U\tu1\tA B"], "u1", "B")}
+    lines, name, taken = docs[cls]
+    g = gfapy.Gfa(lines, vlevel=vlevel)
+    l = g.line(name)
+    if not connected:
+        l = l.clone()
+    if value_is_None:
+        value = None
+    elif value_is_placeholder:
+        value = "*"
+    elif not value_is_valid:
+        value = "a\tb"
+    else:
+        value = {0: "Zz", 1: name, 2: taken}[lookup]
+    before = state.snapshot(g)
+    try:
+        l._set_existing_field(fieldname, value, set_reference=set_reference)
+    except gfapy.Error as e:
+        after = state.snapshot(g)
+        if after != before:
+            return "raised %s but the Gfa changed: %s" % (type(e).__name__, state.snap_diff(before, after))
+        return True
+    except Exception as e:
+        return "foreign exception %s" % type(e).__name__
+    if connected and lookup == 2 and value == taken and fieldname in ("name", "sid", "ID", "eid", "gid", "pid"):
+        return "renamed onto the identifier of another line without error; names=%s" % sorted(map(str, g.names))
+    if vlevel >= 3 and value == "a\tb":
+        return "invalid value stored at level 3"
+    u = state.uniq_errors(g)
+    if u:
+        return "UNIQ broken: %s" % (u[0],)
+    return True
